@@ -1357,9 +1357,9 @@ fn fixed_cases() -> Vec<Program> {
         ],
         &["cx0"],
     ));
-    // 7: `pkg` is an ordinary name: a child module of the root called `pkg` shadows the package root there
+    // 7: a child module of the root called `pkg` must not capture absolute paths
     out.push(mk(
-        "a module named pkg below the root: pkg.… is looked up like any other name",
+        "a module named pkg below the root: pkg.… still starts at the package root",
         vec![],
         vec![
             ModD { ident: PKG, parent: None, items: vec![cx(c0, 900, Block { imports: vec![], stmts: vec![
@@ -1604,6 +1604,47 @@ fn probe_infos(p: &Program) -> Sites {
     Sites { probes: out, decls, let_seq, pair_scopes, imports, with_param }
 }
 
+/// **Program-level oracle for absolute paths**: `pkg.<module path>.<item>` must
+/// be exactly the item declared under that name in that module (the generator
+/// never declares anything called `pkg`, so the first segment cannot be
+/// shadowed).  Independent of the model and of the compiler's scope graph.
+/// `Some(Ok(tag))`: must resolve to that item; `Some(Err(()))`: must be an error
+/// (no such member / module); `None`: no verdict (kind mismatch, longer paths).
+fn absolute_path_oracle(p: &Program, path: &[usize], kind: PKind) -> Option<Result<i64, ()>> {
+    if path.first() != Some(&PKG) || path.len() < 2 || path.contains(&SUPER) {
+        return None;
+    }
+    let mut cur = 0usize;
+    let mut i = 1;
+    while i < path.len() {
+        match children_of(p, cur).into_iter().find(|c| p.mods[*c].ident == path[i]) {
+            Some(c) => {
+                cur = c;
+                i += 1;
+            }
+            None => break,
+        }
+    }
+    if i == path.len() {
+        return None; // the path names a module: a kind error, not a lookup question
+    }
+    // path[i] must be an item of module `cur`
+    let mut found: Option<(PKind, i64)> = None;
+    for it in &p.mods[cur].items {
+        match it {
+            ItemD::Fn { name, tag, body: None } if *name == path[i] => found = Some((PKind::Fn, *tag)),
+            ItemD::Const { name, tag } if *name == path[i] => found = Some((PKind::Const, *tag)),
+            ItemD::Ty { name, tag } if *name == path[i] => found = Some((PKind::Ty, *tag)),
+            _ => {}
+        }
+    }
+    match found {
+        None => Some(Err(())),
+        Some((k, tag)) if i + 1 == path.len() && k == kind => Some(Ok(tag)),
+        Some(_) => None,
+    }
+}
+
 // ------------------------------------------------------------------ the compiler's own scope graph
 
 #[derive(Clone, Debug)]
@@ -1766,8 +1807,9 @@ fn oracle_core(sc: &[DScope], start: usize, path: &[String], visible: &dyn Fn(&s
             i += 1;
         }
     } else {
-        // first segment: innermost scope outward, declarations before imports
-        let mut s = Some(start);
+        // first segment: innermost scope outward, declarations before imports;
+        // `pkg` names the package root wherever it is written: global scope
+        let mut s = Some(if path[0] == "pkg" { 0 } else { start });
         while let Some(x) = s {
             if let Some(d) = decl_in(x, &path[0]) {
                 cur = Some(d);
@@ -2037,6 +2079,31 @@ fn check_variant(rep: &mut Report, drv: &mut Driver, p: &Program, label: &str, i
                     json!({"case": ident, "variant": label, "probe": id, "sources": sources_json(p, &keep_ok, &tags)}),
                 );
             }
+        }
+    }
+
+    // 3a. absolute paths against the program itself
+    for (id, got) in &res.seen {
+        let i = &infos[id];
+        let Some(want) = absolute_path_oracle(p, &i.path, i.kind) else { continue };
+        rep.evaluations += 1;
+        let ok = match (&want, got) {
+            (Ok(t), Out::Ok(g)) => t == g,
+            (Err(()), Out::Ok(_)) => false,
+            (Ok(_), _) => false,
+            (Err(()), _) => true,
+        };
+        if !ok {
+            violate(
+                rep,
+                &format!(
+                    "the absolute path `{}` written in {} resolves to {}; in the program it designates {} ({label})",
+                    path_str(&i.path, &p.names), i.scope, got.show(),
+                    match want { Ok(t) => format!("the item with tag {t}"), Err(()) => "nothing (not a member)".to_string() }
+                ),
+                &format!("absolute-path:{}", match want { Ok(_) => "wrong-or-unresolved", Err(()) => "resolves-nonmember" }),
+                json!({"case": ident, "variant": label, "probe": id, "sources": sources_json(p, &keep_ok, &tags)}),
+            );
         }
     }
 
